@@ -1,8 +1,8 @@
 """Contracts for acnportal/acnsim/events/acndata_events.py  (C15)."""
 import z3
-from pyvc.contracts_api import REG, C, RaiseSpec
+from pyvc.contracts_api import REG, C, RaiseSpec, LoopSpec
 from pyvc.dsl import And, Or, Not, Implies, If, Eq, Min, IsNone
-from pyvc.vtypes import Real, Int, Bool, Id, Ref, Opt
+from pyvc.vtypes import Real, Int, Bool, Id, Ref, Opt, Seq, Mat, FA
 from pyvc.state import PyDict
 from pyvc import vtypes as ty
 
@@ -71,3 +71,4 @@ REG.contract(
               ("Battery._init_charge", "FRESH"), ("Battery._max_power", "FRESH"), ("Battery._current_charging_power", "FRESH")],
     ensures=[C("C15.convert", _conv_post)],
 )
+
